@@ -3,7 +3,7 @@ use crate::rr::{AFSDBSubtype, ISDNAddress, PSDNAddress, Type, AFSDB, ISDN, SA, X
 use crate::EncodeResult;
 
 impl Encoder {
-    impl_encode_rr_domain_name_domain_name!(RP, mbox_dname, txt_dname, rr_rp);
+    impl_encode_rr_domain_name_domain_name_uncompressed!(RP, mbox_dname, txt_dname, rr_rp);
 
     #[inline]
     fn rr_afsdb_subtype(&mut self, afsdb_subtype: &AFSDBSubtype) {
@@ -17,7 +17,7 @@ impl Encoder {
         self.u32(afsdb.ttl);
         let length_index = self.create_length_index();
         self.rr_afsdb_subtype(&afsdb.subtype);
-        self.domain_name(&afsdb.hostname)?;
+        self.domain_name_uncompressed(&afsdb.hostname)?;
         self.set_length_index(length_index)
     }
 
@@ -58,7 +58,7 @@ impl Encoder {
         self.set_length_index(length_index)
     }
 
-    impl_encode_rr_u16_domain_name!(RT, preference, intermediate_host, rr_rt);
+    impl_encode_rr_u16_domain_name_uncompressed!(RT, preference, intermediate_host, rr_rt);
 }
 
 impl_encode_rr!(RP, rr_rp);
